@@ -204,6 +204,14 @@ def run(prop: str, tier_: str) -> int:
                 with da.app.app_context():
                     from dashlive.server import models
                     ppk = {p.stream.directory: p.pk for p in models.db.session.query(models.Period).all()}
+                # what an init segment carries must not depend on what the process served before: manifests of every mode with
+                # DRM selections (the on-demand profile included) are requested first and again between the init requests
+                history = ['/dash/odvod/bbb/hand_made.mpd?drm=playready', '/dash/odvod/bbb/manifest_vod_aiv.mpd?drm=all',
+                           '/dash/live/bbb/hand_made.mpd?drm=clearkey', '/dash/vod/bbb/hand_made.mpd?drm=all-cenc',
+                           '/dash/live/bbb/manifest_e.mpd?drm=marlin,playready-pro']
+                for hurl in history:
+                    c.get(hurl)
+                ninit = 0
                 for stream, rid, ext, enc in reps:
                     sf = stored(da.blob_folder / stream / f'{rid}.mp4')
                     init = sf.data[:sf.init_end]
@@ -221,6 +229,9 @@ def run(prop: str, tier_: str) -> int:
                                 routes.append(f'/mps/{mode}/testmps/{ppk[stream]}/{rid}/init.{ext}')
                             for path in routes:
                                 url = path + ('?' + qv.lstrip('&') if qv else '')
+                                ninit += 1
+                                if ninit % 40 == 0:
+                                    c.get(history[(ninit // 40) % len(history)])
                                 r = c.get(url)
                                 tid += 1
                                 if r.status_code != 200:
